@@ -87,7 +87,7 @@ def rebuild(pp, a):
     return pp.ProFormaAnnotation(**{k: copy.deepcopy(v) for k, v in vars(a).items()})
 
 
-def edit_result(pp, r):
+def edit_result(pp, r, depth=0):
     """Mutate a returned value in place (what a caller may legitimately do with something it was given)."""
     from peptacular.proforma.proforma_dataclasses import Mod
     if isinstance(r, pp.ProFormaAnnotation):
@@ -102,17 +102,22 @@ def edit_result(pp, r):
         r.charge = 99
     elif isinstance(r, list):
         for x in r[:3]:
-            edit_result(pp, x)
+            edit_result(pp, x, depth + 1)
         r.append("EDITED")
     elif isinstance(r, dict):
         for k in list(r)[:4]:
-            edit_result(pp, r[k])
+            edit_result(pp, r[k], depth + 1)
         r["EDITED"] = 1
     elif isinstance(r, tuple):
         for x in r[:3]:
-            edit_result(pp, x)
+            edit_result(pp, x, depth + 1)
     elif isinstance(r, Mod):
         r.val = "EDITED"
+    elif hasattr(r, "__dict__") and not isinstance(r, type):
+        # any other returned object (Fragment, Interval, Fragmenter, ...): edit the annotations / lists it holds
+        for k, v in list(vars(r).items())[:12]:
+            if isinstance(v, (pp.ProFormaAnnotation, list, dict)) and depth < 3:
+                edit_result(pp, v, depth + 1)
 
 
 _REF = {}
@@ -185,7 +190,8 @@ def run_history(pp, table, text, names, hid):
         ref = ""
         if cls == "Q" and name.startswith("t_"):
             ref = _REF.get("", {}).get(name, "")
-        elif cls == "Q" and step == 1:
+        elif cls == "Q" and all(table[n_][0] == "Q" for n_ in names[:step - 1]):
+            # no editor so far: the object is still in the state the seed text denotes
             ref = _REF.get(text, {}).get(name, "")
         ev = {"tid": f"{hid}.{step}", "hid": hid, "step": step, "call": name, "cls": cls, "history": list(names), "seed": text,
               "ref": ref,
